@@ -206,6 +206,7 @@ impl State {
                 | State::AwaitDataResponse { .. }
                 | State::CheckTokenPass { .. }
                 | State::AwaitStatusResponse { .. }
+                | State::ClaimToken { .. }
         );
         *self = State::ActiveIdle {
             status_request: None,
